@@ -16,7 +16,7 @@ from collections import defaultdict
 def norm_dyn(s):
     """normalise a `dyn Fn(..) -> ..` type string: drop binders and lifetime names"""
     s = re.sub(r"for<[^>]*>\s*", "", s)
-    s = re.sub(r"'[a-z_][a-z0-9_]*\s*", "", s)
+    s = re.sub(r"'(\{erased\}|[a-z_][a-z0-9_]*)\s*", "", s)
     s = re.sub(r"\s+", " ", s)
     return s.strip()
 
@@ -129,6 +129,14 @@ class CallGraph:
             if clo not in self.deferred and clo in F.bodies:
                 self.immediate.add(clo)
                 self.edges[creator].append(("immediate", clo, None, F.bodies[clo].get("line")))
+        # closures written in the initialiser of a const / static (a table of fn pointers): no body creates them; they are the targets of calls through
+        # fn pointers of their own signature
+        for clo, b in F.bodies.items():
+            if b.get("kind") == "closure" and clo not in self.creator and not b.get("upvars"):
+                types = F.crates[b["_crate"]]["types"]
+                sig = "fnptr:" + norm_dyn("fn(%s) -> %s" % (", ".join(types[t] for t in b["locals"][2:b["argc"] + 1]), types[b["locals"][0]]))
+                self.deferred.setdefault(clo, set()).add(sig)
+                self.coerced_by_sig[sig].add(clo)
         # dyn edges
         for name, vcs in self.virtual_calls.items():
             for sig, bi, line in vcs:
@@ -212,6 +220,7 @@ class CallGraph:
         val = defaultdict(set)
         moves = []
         casts = []
+        fcasts = []
         for bl in b["blocks"]:
             for st in bl["s"]:
                 if st[0] != "A":
@@ -233,6 +242,9 @@ class CallGraph:
                         moves.append((d, op[1][0]))
                         if "Unsize" in rv[1]:
                             casts.append((op[1][0], types[rv[3]]))
+                        elif "ClosureFnPointer" in rv[1]:
+                            # a non-capturing closure coerced to a fn pointer: deferred target of calls through pointers of that type
+                            fcasts.append((op[1][0], "fnptr:" + norm_dyn(types[rv[3]])))
                     elif op[0] == "F" and "Unsize" in rv[1] or (op[0] == "F" and "ReifyFnPointer" in rv[1]):
                         # fn item coerced to a fn pointer / dyn: deferred target
                         sig = dyn_part(types[rv[3]]) or ("fnptr:" + norm_dyn(types[rv[3]]))
@@ -264,6 +276,10 @@ class CallGraph:
             sig = dyn_part(ty)
             if sig is None:
                 continue
+            for clo in val[src]:
+                self.deferred.setdefault(clo, set()).add(sig)
+                self.coerced_by_sig[sig].add(clo)
+        for src, sig in fcasts:
             for clo in val[src]:
                 self.deferred.setdefault(clo, set()).add(sig)
                 self.coerced_by_sig[sig].add(clo)
